@@ -1068,11 +1068,18 @@ def move_imports_to_toplevel(source: str) -> str:
     for i, node in enumerate(root.body):
         if i > 0 and not isinstance(node, (ast.Import, ast.ImportFrom)):
             lineno = min(x.lineno for x in core.walk(node, ast.AST(lineno=int))) - 1
+            # The line above may be the last line of a statement that spans several lines, or
+            # the docstring of the module
+            previous = root.body[i - 1]
+            if previous.lineno < lineno <= previous.end_lineno or (
+                lineno <= previous.end_lineno and not isinstance(previous, (ast.Import, ast.ImportFrom))
+            ):
+                lineno += 1
             break
         if i == 0 and not core.match_template(
             node, (ast.Import, ast.ImportFrom, ast.Expr(value=ast.Constant(value=str)))
         ):
-            lineno = min(x.lineno for x in core.walk(node, ast.AST(lineno=int))) - 1
+            lineno = max(min(x.lineno for x in core.walk(node, ast.AST(lineno=int))) - 1, 1)
             break
     else:
         if root.body:
